@@ -35,9 +35,11 @@ def replay_at(rec, u, e):
 
     def bad(what, detail):
         viol.append({"sig": f"{tag}:{what}", "detail": f"{detail} | rotation {rec['rot']} reversed {rec['rev']} vertices {rec['vertices']}"})
+    from raysect.core import Point2D
     for ptype in ("csg", "mesh"):
         try:
-            v = AxisymmetricVoxel(verts, primitive_type=ptype)
+            # the vertices as a list of coordinate pairs, or (mesh) as a list of Point2D objects: same voxel
+            v = AxisymmetricVoxel(verts if ptype == "csg" else [Point2D(a, b) for a, b in verts], primitive_type=ptype)
         except Exception as ex:      # noqa: BLE001
             bad(f"{ptype}:construction-raised-{type(ex).__name__}", repr(ex)[:200])
             continue
